@@ -34,3 +34,41 @@ func debugFields(repo, rel, name string) int {
 	}
 	return 0
 }
+
+func debugClasses(repo string, specs []string) int {
+	p, err := loadProgram(repo, "")
+	if err != nil {
+		fmt.Println(err)
+		return 1
+	}
+	for i := 0; i+1 < len(specs); i += 2 {
+		n := p.Named(specs[i], specs[i+1])
+		if n == nil {
+			fmt.Println("no type", specs[i], specs[i+1])
+			continue
+		}
+		st := n.Underlying().(*types.Struct)
+		fields := map[*types.Var]bool{}
+		for j := 0; j < st.NumFields(); j++ {
+			fields[st.Field(j)] = true
+		}
+		by := map[*types.Var][]access{}
+		for _, a := range p.fieldAccesses(fields) {
+			by[a.Field] = append(by[a.Field], a)
+		}
+		for j := 0; j < st.NumFields(); j++ {
+			f := st.Field(j)
+			cl := p.inferClass(f, by[f], nil)
+			nw := 0
+			var writers []string
+			for _, a := range by[f] {
+				if a.Write && !a.Fresh {
+					nw++
+					writers = append(writers, fnName(a.Fn)+a.Held.names())
+				}
+			}
+			fmt.Printf("%-22s %-22s %-12s %-30s shared-writes=%d %v\n", specs[i+1], f.Name(), cl.Class, cl.Lock, nw, writers)
+		}
+	}
+	return 0
+}
